@@ -20,7 +20,7 @@ import os
 import sys
 import types
 import typing
-from typing import NewType, Optional, Union
+from typing import Annotated, NewType, Optional, Union
 
 SRC = os.environ.get("CATTRS_SRC", "/repo/src")
 sys.path.insert(0, SRC)
@@ -84,6 +84,13 @@ class DspW:
     l: list[DspB]  # noqa: E741
 
 
+@attrs.define
+class DspH:
+    """fields spelled `Annotated[T, ...]`: their hooks are found through the converter's own Annotated factory"""
+    a: Annotated[DspA, "m"]
+    i: Annotated[int, "u"]
+
+
 class SKIP:  # a component whose hook is obtained but not called on the sample
     pass
 
@@ -130,6 +137,13 @@ class Universe:
         add("list[list[B]]", list[list[DspB]], "list", ["list[B]"], [[b]], [[pb]], [[(5, 6)]])
         add("dict[str,B]", dict[str, DspB], "dict", ["str", "B"], {"k": b}, {"k": pb}, {"k": (5, 6)})
         add("tuple[A,P]", tuple[DspA, DspP], "tuple", ["A", "P"], (a, DspP()), [pa, {}], [(5,), {}])
+        # `Annotated[T, ...]` spellings (Converter only: its `is_annotated` factories, registered last, unwrap them and
+        # ask the converter THEY ARE BOUND TO for the hook of T), top level and as field types
+        add("An[A]", Annotated[DspA, "m"], "annotated", ["A"], a, pa, (5,))
+        add("An[int]", Annotated[int, "u"], "annotated", ["int"], 5, 5)
+        add("An[NA]", Annotated[NA, "m"], "annotated", ["NA"], a, pa, (5,))
+        add("An[list[B]]", Annotated[list[DspB], "m"], "annotated", ["list[B]"], [b], [pb], [(5, 6)])
+        add("H", DspH, "attrs", ["An[A]", "An[int]"], DspH(a, 5), {"a": pa, "i": 5}, ((5,), 5))
         # W's parts were given by name before list[B] existed
         for t in self.types:
             t.parts = tuple(self.by_name[p].key if isinstance(p, str) else p for p in t.parts)
@@ -248,6 +262,8 @@ def comps_of(cc: ConvCfg, d, key):
         return list(t.parts)
     if sh == "newtype":
         return [] if base_un else list(t.parts)
+    if sh == "annotated":
+        return list(t.parts)
     if sh == "union":
         if d == UN:
             return [U.rtclass(key)]
@@ -272,6 +288,8 @@ def split(cc, d, key, v):
         return [v[n] for n in names]
     if sh == "newtype":
         return [v] if comps_of(cc, d, key) else []
+    if sh == "annotated":
+        return [v]
     if sh == "optional":
         return [v]
     if sh == "union":
@@ -294,6 +312,8 @@ def excluded(cc: ConvCfg, d, key):
         return True  # BaseConverter dispatches on the run-time class `list`, which is not in the universe
     if cc.tuple_strat and d == ST and t.name == "UAD":
         return True  # the automatic disambiguation needs mappings
+    if (not cc.gen()) and (t.shape == "annotated" or t.name == "H"):
+        return True  # BaseConverter has no Annotated support (no `is_annotated` hook factory)
     return False
 
 
@@ -316,6 +336,8 @@ def builtin_behaviour(cc: ConvCfg, d, key):
             return Beh("_unstructure_enum", out=lambda ch, s: canon(s.value))
         if sh == "newtype":
             return Beh("newtype_unstructure", "factory", "cached", comps=cs, out=first) if gen else None
+        if sh == "annotated":
+            return Beh("gen_unstructure_annotated", "factory", "cached", comps=cs, out=first) if gen else None
         if sh == "union":
             return Beh("_unstructure_union", late=True, comps=cs, out=first)
         if sh == "optional":
@@ -344,6 +366,8 @@ def builtin_behaviour(cc: ConvCfg, d, key):
         if gen:
             return Beh("get_structure_newtype", "factory", "cached", comps=cs, out=first)
         return Beh("_structure_newtype", late=True, comps=cs, out=first)
+    if sh == "annotated":
+        return Beh("gen_structure_annotated", "factory", "cached", comps=cs, out=first) if gen else None
     if sh == "optional":
         return Beh("_structure_optional", late=True, comps=cs, out=first)
     if sh == "union":
